@@ -13,7 +13,7 @@ Inductive fate := Delivered | PacketLost | AckLost.
 Record airlog := mkLog {
   l_from : nat; l_addr : list N; l_data : list N; l_noack : bool;
   l_attempts : N; l_ok : bool;
-  l_receivers : list (nat * N) }.   (* (radio, pipe + 8 if that receiver acknowledged) per attempt *)
+  l_receivers : list (nat * N) }.   (* (radio, pipe + 8 if that receiver acknowledged + 16 if it did not store the packet) per attempt *)
 
 (* clock: virtual nanoseconds; every SPI transfer costs SPI_COST, reading the clock costs
    NOW_COST (so that polling loops with a deadline terminate), sleeping adds its argument *)
@@ -126,7 +126,10 @@ Fixpoint deliver (s : radio) (si : nat) (rs : list radio) (j : nat) (pid : N) (n
       | None => (r :: t', acked, apl, who)
       | Some p =>
         let '(r', a, pl) := receive r p pid noack d ack_heard in
-        (r' :: t', a || acked, (if a then pl else apl), (j, if a then p + 8 else p) :: who)
+        (* + 16: the receiver did not store it (RX FIFO full, or PID and payload equal to the last packet: a duplicate) *)
+        let stored := negb (Nat.eqb (length (rx_fifo r')) (length (rx_fifo r))) in
+        (r' :: t', a || acked, (if a then pl else apl),
+         (j, (if a then p + 8 else p) + (if stored then 0 else 16)) :: who)
       end
   end.
 
